@@ -170,3 +170,49 @@ pub fn cmd_props(args: &[String]) {
         writeln!(w, "{}", l).unwrap();
     }
 }
+
+/// `foldeq lo hi`: engine-level equivalence under the i flag through the public API.  For every code point c
+/// of the range with a non-trivial fold class (either mode) and every partner d (class members of both modes,
+/// c^0x20, neighbours, the two non-ASCII code points that fold to ASCII), in both modes:
+///   br  = /^(c)\1$/  on "cd"   (text side folded at match time)
+///   lit = /^c$/       on "d"    (pattern side expanded at compile time)
+///   cls = /^[c]$/     on "d",  ncls = /^[^c]$/ on "d"
+/// prints "E u c d br lit cls ncls".
+pub fn cmd_foldeq(args: &[String]) {
+    let lo: u32 = args[0].parse().unwrap();
+    let hi: u32 = args[1].parse().unwrap();
+    let stdout = std::io::stdout();
+    let mut w = std::io::BufWriter::new(stdout.lock());
+    let is_sv = |c: u32| c < 0x110000 && !(0xD800..0xE000).contains(&c);
+    let syntax = |c: u32| c < 0x80 && !(c as u8 as char).is_ascii_alphanumeric();
+    let run = |pat: Vec<u32>, fl: &str, hay: &str| -> u8 {
+        match regress::Regex::from_unicode(pat.into_iter(), regress::Flags::from(fl)) {
+            Ok(re) => re.find(hay).is_some() as u8,
+            Err(_) => 2,
+        }
+    };
+    for c in lo..=hi {
+        if !is_sv(c) || syntax(c) { continue; }
+        let cu = expand_code_point(c, true, true);
+        let cl = expand_code_point(c, true, false);
+        if cu.len() == 1 && cl.len() == 1 && fold_code_point(c, true) == c && fold_code_point(c, false) == c { continue; }
+        let mut ds: Vec<u32> = Vec::new();
+        ds.extend(cu.iter().copied());
+        ds.extend(cl.iter().copied());
+        ds.extend([c ^ 0x20, c.wrapping_add(1), c.wrapping_sub(1), 0x17F, 0x212A, 0x130, 0x131, 0x73, 0x6B, 0x53, 0x4B, fold_code_point(c, true), fold_code_point(c, false)]);
+        ds.sort(); ds.dedup();
+        for &d in &ds {
+            if !is_sv(d) || syntax(d) { continue; }
+            let (cs, dsr) = (char::from_u32(c).unwrap(), char::from_u32(d).unwrap());
+            let two: String = [cs, dsr].iter().collect();
+            let one: String = [dsr].iter().collect();
+            for (u, fl) in [(0u8, "i"), (1u8, "iu")] {
+                let br = run(vec!['^' as u32, '(' as u32, c, ')' as u32, '\\' as u32, '1' as u32, '$' as u32], fl, &two);
+                let lit = run(vec!['^' as u32, c, '$' as u32], fl, &one);
+                let cls = run(vec!['^' as u32, '[' as u32, c, ']' as u32, '$' as u32], fl, &one);
+                let ncls = run(vec!['^' as u32, '[' as u32, '^' as u32, c, ']' as u32, '$' as u32], fl, &one);
+                writeln!(w, "E {} {} {} {} {} {} {}", u, c, d, br, lit, cls, ncls).unwrap();
+            }
+        }
+    }
+}
